@@ -1,6 +1,7 @@
 /- driver ops for property C09 (model side of the correspondence) -/
 import Rsa.Core.Wire
 import Rsa.Core.Boot
+import Rsa.Core.BootC09
 import Rsa.Gen.C09
 
 open Lean Rsa.Wire Rsa.Boot
@@ -47,12 +48,17 @@ def ofStack (s : Stack Lbl Rat) : Json :=
        ("rdm_desc", ofDesc s.rdmDesc),
        ("pat_desc", ofDesc s.patDesc)]
 
-def specJson (d : Desc Lbl) (k : String) : Json :=
+/-- the `randint` request `[low, high, size]` of a call site, computed by the generated leaves -/
+def specJson (site : Site) (d : Desc Lbl) (k : String) : Json :=
   match d.lookup k with
   | none => Json.null
-  | some desc => let sp := drawSpec Lbl.le desc; Json.arr #[ofNat sp.1, ofNat sp.2]
+  | some desc =>
+    let rq := drawRequestNp site desc
+    Json.arr #[ofNat rq.1, ofNat rq.2.1, ofNat rq.2.2]
 
-/-- one bootstrap draw: `mode` = both | rdm | pattern, draws as recorded from `randint` -/
+/-- one bootstrap draw: `mode` = both | rdm | pattern, draws as recorded from `randint`.
+    Runs the entry points *as coded* (numpy coercion, generated NaN leaf); `fixed` selects the
+    repaired comparison of `RDMs.subsample` for mixed int/str descriptors. -/
 def boot (j : Json) : R Json := do
   let s ← asStack j
   let mode ← fld j "mode" >>= asStr
@@ -60,25 +66,27 @@ def boot (j : Json) : R Json := do
   let patBy ← asStr (fldD j "pat_by" (Json.str "index"))
   let dr ← asList asNat (fldD j "draws_r" (Json.arr #[]))
   let dp ← asList asNat (fldD j "draws_p" (Json.arr #[]))
+  let fixed := match fldD j "fixed" (Json.bool false) with | Json.bool b => b | _ => false
   match mode with
   | "both" =>
-    match bootstrapSample Lbl.le s rdmBy patBy dr dp with
+    match bootstrapSampleNp fixed s rdmBy patBy dr dp with
     | none => pure (obj [("exc", Json.str "KeyError")])
     | some (r, ri, pi) =>
       pure (obj [("stack", ofStack r), ("rdm_idx", ofList ofLbl ri), ("pat_idx", ofList ofLbl pi),
-                 ("spec_r", specJson s.rdmDesc rdmBy), ("spec_p", specJson s.patDesc patBy)])
+                 ("spec_r", specJson Site.bothR s.rdmDesc rdmBy),
+                 ("spec_p", specJson Site.bothP s.patDesc patBy)])
   | "rdm" =>
-    match bootstrapSampleRdm Lbl.le s rdmBy dr with
+    match bootstrapSampleRdmNp fixed s rdmBy dr with
     | none => pure (obj [("exc", Json.str "KeyError")])
     | some (r, ri) =>
       pure (obj [("stack", ofStack r), ("rdm_idx", ofList ofLbl ri), ("pat_idx", Json.null),
-                 ("spec_r", specJson s.rdmDesc rdmBy), ("spec_p", Json.null)])
+                 ("spec_r", specJson Site.rdm s.rdmDesc rdmBy), ("spec_p", Json.null)])
   | "pattern" =>
-    match bootstrapSamplePattern Lbl.le s patBy dp with
+    match bootstrapSamplePatternNp s patBy dp with
     | none => pure (obj [("exc", Json.str "KeyError")])
     | some (r, pi) =>
       pure (obj [("stack", ofStack r), ("rdm_idx", Json.null), ("pat_idx", ofList ofLbl pi),
-                 ("spec_r", Json.null), ("spec_p", specJson s.patDesc patBy)])
+                 ("spec_r", Json.null), ("spec_p", specJson Site.pat s.patDesc patBy)])
   | _ => throw s!"unknown mode {mode}"
 
 /-- `subsample_pattern(by, value)` on any stack (resampling a model prediction) -/
@@ -86,7 +94,7 @@ def resample (j : Json) : R Json := do
   let s ← asStack j
   let patBy ← asStr (fldD j "pat_by" (Json.str "index"))
   let value ← fld j "value" >>= asList asLbl
-  match s.subsamplePattern patBy value with
+  match s.subsamplePatternNp patBy value with
   | none => pure (obj [("exc", Json.str "KeyError")])
   | some r => pure (obj [("stack", ofStack r)])
 
@@ -104,12 +112,62 @@ def unique (j : Json) : R Json := do
   let d ← fld j "desc" >>= asList asLbl
   pure (ofList ofLbl (uniq Lbl.le d))
 
+/-- one set of returned pattern indices applied to every prediction of a session -/
+def resampleAllOp (j : Json) : R Json := do
+  let ms ← fld j "stacks" >>= asList asStack
+  let patBy ← asStr (fldD j "pat_by" (Json.str "index"))
+  let value ← fld j "value" >>= asList asLbl
+  pure (Json.arr ((resampleAll ms patBy value).map (fun r =>
+    match r with
+    | none => obj [("exc", Json.str "KeyError")]
+    | some r => obj [("stack", ofStack r)])).toArray)
+
+/-- `np.setdiff1d(desc, idx)` -/
+def testIdxOp (j : Json) : R Json := do
+  let d ← fld j "desc" >>= asList asLbl
+  let idx ← fld j "idx" >>= asList asLbl
+  pure (ofList ofLbl (testIdx Lbl.le d idx))
+
+def ofOptL (o : Option (List Lbl)) : Json :=
+  match o with
+  | none => Json.null
+  | some l => ofList ofLbl l
+
+/-- one iteration of `bootstrap_testset` / `_pattern` / `_rdm` -/
+def testsetOp (j : Json) : R Json := do
+  let s ← asStack j
+  let fn ← fld j "fn" >>= asStr
+  let rdmBy ← asStr (fldD j "rdm_by" (Json.str "index"))
+  let patBy ← asStr (fldD j "pat_by" (Json.str "index"))
+  let dr ← asList asNat (fldD j "draws_r" (Json.arr #[]))
+  let dp ← asList asNat (fldD j "draws_p" (Json.arr #[]))
+  let f ← match fn with
+    | "both" => pure TestFn.both
+    | "pattern" => pure TestFn.pattern
+    | "rdm" => pure TestFn.rdm
+    | _ => throw s!"unknown fn {fn}"
+  match bootTestset f s rdmBy patBy dr dp with
+  | none => pure (obj [("exc", Json.str "KeyError")])
+  | some r =>
+    pure (obj [("stack", ofStack r.sample), ("rdm_idx", ofOptL r.rdmIdx), ("pat_idx", ofOptL r.patIdx),
+               ("test_r", ofOptL r.testR), ("test_p", ofOptL r.testP),
+               ("test", match r.test with | none => Json.null | some t => ofStack t)])
+
+/-- `np.unique` of one descriptor with numpy's coercion -/
+def uniqueNp (j : Json) : R Json := do
+  let d ← fld j "desc" >>= asList asLbl
+  pure (ofList ofLbl (uniq Lbl.le (npCoerce d)))
+
 def handle : Handler := fun op j =>
   match op with
   | "c09.boot" => some (boot j)
   | "c09.resample" => some (resample j)
   | "c09.resample_rdm" => some (resampleRdm j)
   | "c09.unique" => some (unique j)
+  | "c09.unique_np" => some (uniqueNp j)
+  | "c09.resample_all" => some (resampleAllOp j)
+  | "c09.testidx" => some (testIdxOp j)
+  | "c09.testset" => some (testsetOp j)
   | _ => none
 
 end Rsa.Drv.C09
